@@ -19,7 +19,7 @@ from .. import impl
 
 PID = 'C04'
 SHEETS = ['SHEET1', 'DATA 2', 'S.3']
-BOOKS = ['BOOK.XLSX', 'OTHER.XLSX']
+BOOKS = ['BOOK.XLSX', 'OTHER.XLSX', '2020 DATA.XLSX']
 
 
 def letters(n):
@@ -77,8 +77,6 @@ def render(sp):
     if ref is None:
         return None
     ss, bs, sh, bk = sp['ss'], sp['bs'], sp['sh'], sp['bk']
-    if bs == 'dirfile':
-        return None
     sheet = SHEETS[sh]
     low = ss in ('lower', 'quotedlower')
     sname = sheet.lower() if low else sheet
@@ -90,10 +88,10 @@ def render(sp):
                 return None
             return '%s!%s' % (sname, ref)
         return "'%s'!%s" % (sname, ref)
-    if bs == 'file':
+    if bs in ('file', 'dirfile'):
         if ss in ('plain', 'lower') and ' ' in sheet:
             return None
-        return "'[%s]%s'!%s" % (BOOKS[bk], sname, ref)
+        return "'%s[%s]%s'!%s" % ('D/' if bs == 'dirfile' else '', BOOKS[bk], sname, ref)
     if bs == 'id':
         if ss in ('plain', 'lower'):
             if ' ' in sheet:
